@@ -232,14 +232,19 @@ def c14(pid, tier, t0):
 def c13(pid, tier, t0):
     exe = nv.build_harness("c13_search", "asan", ["c13_search.c"], wraps=WRAPS)
     res = nv.run_shards(exe, ["tier=" + tier, "deadline=%d" % dl(tier)], nv.NCPU, dl(tier) + 120)
+    exe2 = nv.build_harness("c13_vikeys", "plain", ["c13_vikeys.c"], wraps=WRAPS)
+    res = nv.run_shards(exe2, ["tier=" + tier, "deadline=%d" % dl(tier)], nv.NCPU, dl(tier) + 120, res=res, tag="v")
+    nv.conformance(res)
     return nv.finish(pid, tier, t0, res, {
-        "rule": "27 patterns (literals, anchors, word boundaries, empty-matching, groups, alternation) x every buffer of 1-2 lines of <= line_len characters and of 3 lines of <= 1 (thorough 2) "
-                "characters over {a,b,space,U+00E9} x every cursor position x forward/backward x ic on/off on the real lbuf_search; "
-                "distinct_nontrivial = searches for which the reference finds a match",
-        "depth_bound": res.stats.get("line_len"),
+        "rule": "(a) 27 patterns (literals, anchors, word boundaries, empty-matching, groups, alternation) x every buffer of 1-2 lines of <= line_len characters and of 3 lines of <= 1 (thorough 2) "
+                "characters over {a,b,space,U+00E9} x every cursor position x forward/backward x ic on/off on the real lbuf_search; (b) vi mode: all sequences up to depth over "
+                "{/p ?p for 6 patterns, counts 2 and 3, line offsets /p/+1 ?p?-1, the empty pattern, n N 2n 2N 3n, ^A 2^A, j w $ G} from every start position of two buffers (adjacent and "
+                "overlapping matches, multi-byte text, empty line); distinct_nontrivial = searches for which the reference finds a match (a) + distinct (cursor, last search) states (b)",
+        "depth_bound": res.stats.get("depth"),
         "explanation": "landing position (row, character offset) and match length compared with a whole-line reference: forward = smallest match start after the cursor character, else first match of the "
-                       "nearest following line; backward = last of the successive matches beginning before the cursor, else the last on the nearest preceding line; nothing found = position unchanged; no wrap-around",
-    }, ["the vi-level clauses (n/N direction, counts, ^A, the / and ? prompts) are explored by the vi-mode harness of C07/C08", "AddressSanitizer build"])
+                       "nearest following line; backward = last of the successive matches beginning before the cursor, else the last on the nearest preceding line; nothing found = position unchanged; no wrap-around; "
+                       "in vi mode a count is that many successive searches, n repeats in the same and N in the opposite direction, an offset lands line-wise on the first non-blank, ^A searches \\<word\\>",
+    }, ["AddressSanitizer build for (a)", "n after ^A and ^A on a non-word character are left open in (b)"])
 
 
 @check("C06")
